@@ -200,6 +200,41 @@ def run(ctx):
                 spec_fail.append((f"propagator_{wt}.propagate", "changing the number of batches changes no output", {"n_batch": nb}))
             if np.abs(outs[nb][2] - outs[1][2]).max() > 1e-10:
                 spec_fail.append((f"propagator_{wt}._apply_trotprop", "changing the number of batches changes no output", {"n_batch": nb}))
+    # ---- independence probe: with the incoming shift, walkers, fields and overlaps fixed, what a step does to one walker (its new
+    # matrix, its new weight - window and cap included) must not depend on the OTHER walkers' weights; small and large populations
+    for wt, tk, ne in (("restricted", "rhf", (2, 2)), ("unrestricted", "uhf", (2, 1))):
+        for n in (6, 128):
+            try:
+                seed = rng.randrange(1 << 30)
+                S = systems.make_system(random.Random(seed), tk, wt, norb=4, nelec=ne, nchol=2, n_walkers=n, dt=0.05, seed=seed)
+                ws = wf.walkers(random.Random(seed + 1), 4, ne, n, restricted=(wt == "restricted"))
+                base = systems.copy_prop_data(S["prop_data"])
+                base["walkers"] = ws
+                base["overlaps"] = S["trial"].calc_overlap(ws, S["wave_data"])
+                fields = jr.normal(jr.PRNGKey(seed), (n, 2))
+                probes = {0: 60.0, 1: 1.0, 2: 0.25}      # one heavy walker (below the absolute cap of 100), two ordinary ones
+                res = {}
+                for tag, other in (("a", 0.5), ("b", 0.01), ("c", 20.0)):
+                    pd = systems.copy_prop_data(base)
+                    w = np.full(n, other)
+                    for k, v in probes.items():
+                        w[k] = v
+                    pd["weights"] = jnp.array(w)
+                    out = S["prop"].propagate(S["trial"], S["ham_data"], pd, fields, S["wave_data"])
+                    res[tag] = (np.array(out["weights"]), out["walkers"])
+                    evals += 1
+                for tag in ("b", "c"):
+                    for k in probes:
+                        dw = abs(res[tag][0][k] - res["a"][0][k])
+                        fa = flat(permute(res["a"][1], np.array([k])))
+                        fb = flat(permute(res[tag][1], np.array([k])))
+                        if dw > 1e-9 or np.abs(fa - fb).max() > 1e-10:
+                            spec_fail.append((f"propagator_{wt}.propagate", "what a step does to one walker does not depend on the other walkers' weights (incoming shift fixed)",
+                                              {"n_walkers": n, "probe": k, "probe_weight_in": probes[k], "others_weight": {"a": 0.5, "b": 0.01, "c": 20.0}[tag],
+                                               "probe_weight_out_reference": float(res["a"][0][k]), "probe_weight_out": float(res[tag][0][k])}))
+                            break
+            except Exception as ex:
+                spec_fail.append((f"propagator_{wt}.propagate", "independence probe runs", {"n_walkers": n, "error": repr(ex)[:300]}))
     # ---- restricted vs unrestricted storage format: identical trajectories
     nrep = 2 if ctx.tier == "quick" else 6
     for r in range(nrep):
